@@ -170,11 +170,15 @@ def run(ctx):
         total += len(ms)
         step = 4
         for lo in range(0, len(ms), step):
-            jobs.append((name, prefix, lo, min(lo + step, len(ms)), ctx.thorough))
+            jobs.append((name, prefix, lo, min(lo + step, len(ms)), ctx.thorough and name != 'TestActivity.apk'))
+    if ctx.thorough:      # pairs of sites for the test package of TestActivity.apk (the whole file is covered site by site)
+        d, dx, ms = corpus(repo, 'TestActivity.apk', 'Ltests/androguard/')
+        for lo in range(0, len(ms), 4):
+            jobs.append(('TestActivity.apk', 'Ltests/androguard/', lo, min(lo + 4, len(ms)), True))
     ctx.bounds = dict(files=sorted({s[0] for s in srcs}), classes=[s[1] or '(all)' for s in srcs], methods=total,
                       orders='every single order-consuming site (set iteration / pop with >= 2 elements whose hash is seed or layout '
                       'dependent) through all permutations up to 4 elements, 4 fixed permutations beyond' +
-                      ('; every pair of sites for methods with <= 10 sites' if ctx.thorough else ''),
+                      ('; every pair of sites for methods with <= 10 sites (test package of TestActivity.apk and the other files)' if ctx.thorough else ''),
                       history='each method decompiled a second time after the other methods of its group, in reverse order')
     ctx.stubs = ['every set of androguard.decompiler.* is an OrderSet (name shadowing + AST rewrite of set displays / comprehensions)',
                  'sets whose elements all hash deterministically (ints, tuples of ints) keep the real CPython order']
